@@ -119,7 +119,7 @@ def observe(fggs, spec, opts, vp, orders=None, want_viterbi=True):
         if not o['ok']:
             out[key] = ('error', f"{o['exc_type']}: {o['exc']}", o.get('where', ''))
             continue
-        if any('maximum iteration' in w for w in o['warnings']):
+        if o['warnings']:
             out[key] = ('warned',)
             continue
         z = o['value']
